@@ -10,6 +10,7 @@ import (
 	"go/types"
 	"os"
 	"path/filepath"
+	"runtime"
 	"strings"
 	"sync/atomic"
 
@@ -183,8 +184,8 @@ type Exec struct {
 	depth  int
 
 	useContracts bool
-	dropAux      bool // loop invariants labelled [aux] are ignored
-	ignoreLoops  bool // loop contracts are ignored altogether: loops are unrolled
+	dropAux      bool                   // loop invariants labelled [aux] are ignored
+	ignoreLoops  bool                   // loop contracts are ignored altogether: loops are unrolled
 	noInline     map[*ssa.Function]bool // functions that must not be inlined (havocked instead; refutation only)
 
 	// statistics
@@ -220,6 +221,7 @@ type Exec struct {
 	curEntry           []Heap
 	iters              []*IterV
 	opaqueNil          map[*OpaqueV]*Term
+	degraded           map[*GhostRecvV]Value
 	poisoned           map[*ssa.Package]string // packages whose initialiser could not be executed
 	initGuard          bool
 	ctxDone            map[string]*Term // opaque context -> "its Done channel is known to be closed"
@@ -293,6 +295,24 @@ func pkgKey(name, path string) string {
 		}
 	}
 	return name
+}
+
+// asUnsupported: the panic value as an Unsupported.  Besides the engine's own
+// Unsupported, a failed Go type assertion on one of the engine's value kinds
+// (a value shape used in a way the executor has no rule for, e.g. a
+// ghost-governed receiver that is indexed directly) means the same thing:
+// outside the subset, not an engine crash.
+func asUnsupported(r interface{}) (Unsupported, bool) {
+	if u, ok := r.(Unsupported); ok {
+		return u, true
+	}
+	if e, ok := r.(runtime.Error); ok {
+		msg := e.Error()
+		if strings.Contains(msg, "interface conversion") && strings.Contains(msg, "main.") {
+			return Unsupported{Msg: "value of a shape the executor has no rule for here (" + msg + ")"}, true
+		}
+	}
+	return Unsupported{}, false
 }
 
 // needUnwind is raised by the exact unrolling when a test does not fold.
@@ -459,7 +479,7 @@ func (x *Exec) mergeEdgesVals(edges []edge, cur map[ssa.Value]Value) (*Term, *St
 			func() {
 				defer func() {
 					if r := recover(); r != nil {
-						if _, is := r.(Unsupported); is {
+						if _, is := asUnsupported(r); is {
 							delete(vals, k)
 							return
 						}
@@ -1848,7 +1868,15 @@ func (x *Exec) typeAssert(i *ssa.TypeAssert, v *IfaceV, st *State, pc *Term) Val
 			ok, val = m[0].(*Term), m[1]
 		} else {
 			isT := b.Var("is_"+typeName(i.AssertedType)+"_"+sanitize(v.Opaque), BoolS())
-			val = x.symV(i.AssertedType, "asserted_"+sanitize(v.Opaque), x.assertObjs())
+			if x.ghostGoverned(v, i.AssertedType) && onlyReceiverUse(i) {
+				// a devirtualised fast path (`if dm, ok := cpu.Memory.(DumbMemory); ok`):
+				// the asserted value is the same object; a method called on it
+				// directly is the very call the interface would dispatch to, so it is
+				// governed by the same interface call rule
+				val = &GhostRecvV{Iface: v, T: i.AssertedType}
+			} else {
+				val = x.symV(i.AssertedType, "asserted_"+sanitize(v.Opaque), x.assertObjs())
+			}
 			x.asserts[key] = [2]Value{isT, val}
 			if x.assertTypes == nil {
 				x.assertTypes = map[string]types.Type{}
@@ -1873,6 +1901,41 @@ func (x *Exec) typeAssert(i *ssa.TypeAssert, v *IfaceV, st *State, pc *Term) Val
 	}
 	x.oblige("type-assert", pc, ok)
 	return val
+}
+
+// onlyReceiverUse: every use of the asserted value is as the receiver of a
+// static method call (then - and only then - it can stand for the interface
+// value it was asserted from).
+func onlyReceiverUse(i *ssa.TypeAssert) bool {
+	var vals []ssa.Value
+	if i.CommaOk {
+		for _, r := range *i.Referrers() {
+			if ex, ok := r.(*ssa.Extract); ok && ex.Index == 0 {
+				vals = append(vals, ex)
+			}
+		}
+	} else {
+		vals = []ssa.Value{i}
+	}
+	for _, v := range vals {
+		for _, r := range *v.Referrers() {
+			switch u := r.(type) {
+			case *ssa.DebugRef:
+			case *ssa.Call:
+				if u.Call.IsInvoke() || u.Call.StaticCallee() == nil || len(u.Call.Args) == 0 || u.Call.Args[0] != v || u.Call.StaticCallee().Signature.Recv() == nil {
+					return false
+				}
+				for _, a := range u.Call.Args[1:] {
+					if a == v {
+						return false
+					}
+				}
+			default:
+				return false
+			}
+		}
+	}
+	return true
 }
 
 func typeName(t types.Type) string {
